@@ -211,6 +211,21 @@ def error_exits(P, key):
                 not rp.endswith("from_residual") and P.norm_path(key, t["callee"].get("rpath")) in P.body:
             # `f(..)` as the value of the function (no `?`): f's errors leave through here as they are
             out.append(("try", bb, t))
+        elif t["dest"]["local"] == 0 and not t["dest"]["proj"] and rp == "std::result::Result::<T, E>::map_err" and len(t["args"]) == 2 and \
+                TAIL_RESULT.search(P.tys(key, b["locals"][0]["ty"])):
+            # `result.map_err(|e| ...)` as the value of the function (a helper that says where it went wrong): the errors that leave
+            # are the ones the closure makes
+            cr_ = P.crate_of[key]
+            a_ = t["args"][1]
+            pth = None
+            if "const" in a_ and "ty" in a_["const"] and cr_.types[a_["const"]["ty"]]["k"] == "closure":
+                pth = cr_.types[a_["const"]["ty"]]["path"]
+            else:
+                pl_ = a_.get("move") or a_.get("copy")
+                for l_ in ({pl_["local"], ch.root(a_, through_calls=False)[0]} - {None}) if pl_ is not None else ():
+                    if cr_.types[b["locals"][l_]["ty"]]["k"] == "closure":
+                        pth = cr_.types[b["locals"][l_]["ty"]]["path"]
+            out.append(("try", bb, {"callee": {"rpath": pth, "path": pth, "rkind": "item"}, "args": []} if pth else None))
         elif rp.endswith("from_residual"):
             # residual <- (Break payload of) Try::branch(x) <- x = result of a call
             locs, consts, calls, places = MU.backward_slice(b, t["args"][:1])
